@@ -9,6 +9,7 @@ Grammar of a case (one line, whitespace separated tokens; -1 = none):
             O <p> (<nc> CONN*)* Q <q> (<nq> QCONN*)*
   SCRIPT := <nops> OP*
   OP     := snd <port> EXPR | qry <port> EXPR | sch DL <input> EXPR <slot|-1> <period|-1> | can <slot> | pan <code>
+            | nst <threads> <k>   (harness only: nested simulation; skipped by the model)
   EXPR   := in | c <n> | ip <n>          DL := a <t> | r <d>
   CONN   := KEEP <add> (m <model> <input> | s <sink>)      KEEP := all | even | lt <c>
   QCONN  := KEEP <add> <model> <replier> <radd>
@@ -50,6 +51,8 @@ def r_op(o):
         return "%s %d %s" % (o[0], o[1], r_expr(o[2]))
     if o[0] == "sch":
         return "sch %s %d %s %s %s" % (r_dl(o[1]), o[2], r_expr(o[3]), opt(o[4]), opt(o[5]))
+    if o[0] == "nst":
+        return "nst %d %d" % (o[1], o[2])
     return "%s %d" % (o[0], o[1])
 
 
@@ -177,5 +180,15 @@ def parse_drop(line):
     if " A:" in x:
         x, a = x.rsplit(" A:", 1)
         leak = int(a)
+    if " N:" in x:
+        x = x.rsplit(" N:", 1)[0]
     n, rest = x.split(":", 1)
     return int(n), rest.strip("[]").split(), leak
+
+
+def parse_nested(line):
+    """-> (models made, models dropped, nested simulations, nested handler runs) or None"""
+    if line is None or " || D:" not in line or " N:" not in line:
+        return None
+    x = line.split(" || D:")[1].rsplit(" N:", 1)[1].split(" ")[0]
+    return tuple(int(v) for v in x.split(":"))
